@@ -436,6 +436,23 @@ func Check(r *vrep.Report, callsV []uni.Call, tsos []uni.TSOEvent, recs []*work.
 				}
 			}
 		}
+		// rule 7c: when the store may calculate the commit ts (async commit / 1PC), it may choose the request's
+		// min_commit_ts itself: unless causal consistency was requested, that lower bound must already exceed every
+		// timestamp the oracle had issued to the client before Commit was called
+		if v.rec != nil && v.rec.EndKind == "commit" && !v.rec.Spec.Causal && v.owner >= 0 {
+			if m := newestTSO(v.owner, v.rec.EndCallSeq); m != 0 {
+				for _, p := range v.prewrites {
+					req := p.Req.(*kvrpcpb.PrewriteRequest)
+					if (!req.UseAsyncCommit && !req.TryOnePc) || p.Seq < v.rec.EndCallSeq {
+						continue
+					}
+					r.Count("rule7c_evaluated", 1)
+					if req.MinCommitTs <= m {
+						viol("7:min-commit-ts-not-above-issued-tso", fmt.Sprintf("txn %d: prewrite (async=%v 1pc=%v) carries min_commit_ts %d, not above timestamp %d the oracle had issued to the client before Commit was called", v.start, req.UseAsyncCommit, req.TryOnePc, req.MinCommitTs, m), p)
+					}
+				}
+			}
+		}
 		// rule 9: async-commit secondaries
 		for _, p := range v.prewrites {
 			req := p.Req.(*kvrpcpb.PrewriteRequest)
